@@ -5,3 +5,4 @@ import HL.Lemmas.Text
 import HL.Props.C01
 import HL.Driver.AstJson
 import HL.Model.Settings
+import HL.Spec.SettingsSpec
